@@ -608,3 +608,306 @@ Proof.
   split; [intros ln'; eapply expand_one_ln; exact H|]. split; [exact Hp|]. split; [|exact Hl].
   intros vars' ln' b' Hb. apply expand_one_plain_id. rewrite Forall_forall in Hp. apply Hp, Hb.
 Qed.
+
+(* ------------------------------------------------------------------------------------------ *)
+(** * B.2 Labels *)
+
+Lemma ninsn_app a b : ninsn (a ++ b) = (ninsn a + ninsn b)%nat.
+Proof.
+  induction a as [|[ln e] t IH]; cbn [app ninsn]; [reflexivity|].
+  destruct e as [n|bd]; [exact IH | rewrite IH; lia].
+Qed.
+
+(* line number of the entry before the current one *)
+Fixpoint prev_ln (last : option Z) (pre : list (Z * tentry)) : option Z :=
+  match pre with [] => last | (l, _) :: t => prev_ln (Some l) t end.
+Definition is_first (last : option Z) (ln : Z) : bool :=
+  match last with Some l => negb (l =? ln) | None => true end.
+
+(* the declarations (name, address, line) in the order [rv_labels] meets them *)
+Fixpoint decls (text : list (Z * tentry)) (inl : zmap) (addr : Z) (last : option Z)
+  : list (Z * Z * Z) :=
+  match text with
+  | [] => []
+  | (ln, ELabel name) :: t => (name, addr, ln) :: decls t inl addr (Some ln)
+  | (ln, EBody b) :: t =>
+      let rest := decls t inl (if body_is_instruction b then addr + 4 else addr) (Some ln) in
+      match mget_opt inl ln with
+      | Some name => if is_first last ln then (name, addr, ln) :: rest else rest
+      | None => rest
+      end
+  end.
+
+Fixpoint add_all (lb : zmap) (ds : list (Z * Z * Z)) : pres zmap :=
+  match ds with
+  | [] => POk lb
+  | (n, a, ln) :: t =>
+      match add_label lb n a ln with POk lb' => add_all lb' t | PErr e => PErr e end
+  end.
+
+Lemma rv_labels_decls text inl : forall addr lb last,
+  rv_labels text inl addr lb last = add_all lb (decls text inl addr last).
+Proof.
+  induction text as [|[ln e] t IH]; intros addr lb last; cbn [rv_labels decls]; [reflexivity|].
+  destruct e as [n|b].
+  - cbn [add_all]. destruct (add_label lb n addr ln); [apply IH | reflexivity].
+  - cbv zeta. fold (is_first last ln).
+    destruct (mget_opt inl ln) as [name|]; [|apply IH].
+    destruct (is_first last ln); [|apply IH].
+    cbn [add_all]. destruct (add_label lb name addr ln); [apply IH | reflexivity].
+Qed.
+
+Lemma decls_app pre : forall rest inl addr last,
+  decls (pre ++ rest) inl addr last =
+  decls pre inl addr last ++ decls rest inl (addr + 4 * Z.of_nat (ninsn pre)) (prev_ln last pre).
+Proof.
+  induction pre as [|[ln e] t IH]; intros rest inl addr last; cbn [app decls ninsn prev_ln].
+  - f_equal. lia.
+  - destruct e as [n|b].
+    + rewrite IH. reflexivity.
+    + cbv zeta. rewrite IH.
+      replace (addr + 4 * Z.of_nat ((if body_is_instruction b then 1 else 0) + ninsn t))
+        with ((if body_is_instruction b then addr + 4 else addr) + 4 * Z.of_nat (ninsn t))
+        by (destruct (body_is_instruction b); lia).
+      destruct (mget_opt inl ln); [|reflexivity]. destruct (is_first last ln); reflexivity.
+Qed.
+
+Lemma prev_ln_in pre : forall last l, prev_ln last pre = Some l -> last = Some l \/ In l (map fst pre).
+Proof.
+  induction pre as [|[k e] t IH]; intros last l H; cbn [prev_ln] in H.
+  - left; exact H.
+  - right. cbn [map fst In]. destruct (IH _ _ H) as [Hs|Hin]; [left; congruence | right; exact Hin].
+Qed.
+
+Lemma is_first_true last ln : is_first last ln = true <-> last <> Some ln.
+Proof.
+  unfold is_first. destruct last as [l|].
+  - split; [intros H Hc; injection Hc as ->; rewrite Z.eqb_refl in H; discriminate H|].
+    intros H. destruct (l =? ln) eqn:E; [|reflexivity]. apply Z.eqb_eq in E. subst. congruence.
+  - split; [discriminate | reflexivity].
+Qed.
+
+(* every declaration comes from an entry *)
+Lemma decls_in text inl : forall addr last n a ln, In (n, a, ln) (decls text inl addr last) ->
+  exists pre e post, text = pre ++ (ln, e) :: post /\ a = addr + 4 * Z.of_nat (ninsn pre) /\
+    (e = ELabel n \/
+     exists b, e = EBody b /\ mget_opt inl ln = Some n /\ prev_ln last pre <> Some ln).
+Proof.
+  induction text as [|[l e] t IH]; intros addr last n a ln H; cbn [decls] in H; [destruct H|].
+  assert (Shift: forall addr', In (n, a, ln) (decls t inl addr' (Some l)) ->
+            addr' = addr + 4 * Z.of_nat (ninsn [(l, e)]) ->
+            exists pre e0 post, (l, e) :: t = pre ++ (ln, e0) :: post /\
+              a = addr + 4 * Z.of_nat (ninsn pre) /\
+              (e0 = ELabel n \/
+               exists b, e0 = EBody b /\ mget_opt inl ln = Some n /\ prev_ln last pre <> Some ln)).
+  { intros addr' Hin Ha. destruct (IH _ _ _ _ _ Hin) as (pre & e0 & post & -> & -> & Hd).
+    exists ((l, e) :: pre), e0, post. split; [reflexivity|]. split.
+    - change ((l, e) :: pre) with ([(l, e)] ++ pre). rewrite ninsn_app. lia.
+    - exact Hd. }
+  assert (Here: forall nm, (nm, addr, l) = (n, a, ln) ->
+            (e = ELabel nm \/ exists b, e = EBody b /\ mget_opt inl l = Some nm /\ last <> Some l) ->
+            exists pre e0 post, (l, e) :: t = pre ++ (ln, e0) :: post /\
+              a = addr + 4 * Z.of_nat (ninsn pre) /\
+              (e0 = ELabel n \/
+               exists b, e0 = EBody b /\ mget_opt inl ln = Some n /\ prev_ln last pre <> Some ln)).
+  { intros nm Heq Hd. injection Heq as -> -> ->. exists [], e, t. split; [reflexivity|].
+    split; [cbn [ninsn]; lia | exact Hd]. }
+  destruct e as [nm|b].
+  - destruct H as [H|H].
+    + apply (Here nm H). left; reflexivity.
+    + apply (Shift addr H). cbn [ninsn]. lia.
+  - cbv zeta in H.
+    assert (Hs: In (n, a, ln) (decls t inl (if body_is_instruction b then addr + 4 else addr) (Some l)) ->
+              exists pre e0 post, (l, EBody b) :: t = pre ++ (ln, e0) :: post /\
+              a = addr + 4 * Z.of_nat (ninsn pre) /\
+              (e0 = ELabel n \/
+               exists b0, e0 = EBody b0 /\ mget_opt inl ln = Some n /\ prev_ln last pre <> Some ln)).
+    { intros Hin. apply (Shift _ Hin). cbn [ninsn]. destruct (body_is_instruction b); lia. }
+    destruct (mget_opt inl l) as [nm|] eqn:Einl; [|exact (Hs H)].
+    destruct (is_first last l) eqn:Ef; [|exact (Hs H)].
+    destruct H as [H|H]; [|exact (Hs H)].
+    apply (Here nm H). right. exists b. split; [reflexivity|]. split; [first [exact Einl | reflexivity]|].
+    apply is_first_true. exact Ef.
+Qed.
+
+(* [add_all] *)
+Lemma add_all_ok ds : forall lb labels, add_all lb ds = POk labels ->
+  lbl_ext lb labels /\
+  (forall n a ln, In (n, a, ln) ds -> mget_opt labels n = Some a) /\
+  (forall n a, mget_opt labels n = Some a -> mget_opt lb n = Some a \/ exists ln, In (n, a, ln) ds).
+Proof.
+  induction ds as [|[[n a] ln] t IH]; intros lb labels H; cbn [add_all] in H.
+  - injection H as <-. split; [apply lbl_ext_refl|]. split; [intros n a ln []|].
+    intros n a Hm. left; exact Hm.
+  - destruct (add_label lb n a ln) as [lb'|] eqn:Ea; [|discriminate].
+    destruct (add_label_ok _ _ _ _ _ Ea) as [-> Hnone].
+    destruct (lbl_ext_add lb n a Hnone) as [Hext Hget].
+    destruct (IH _ _ H) as (Hext' & Hin & Hback).
+    split; [eapply lbl_ext_trans; eassumption|]. split.
+    + intros n' a' ln' [Heq|Hi]; [|eapply Hin; exact Hi].
+      injection Heq as <- <- <-. apply Hext'. exact Hget.
+    + intros n' a' Hm. destruct (Hback _ _ Hm) as [Hl|[ln' Hl]].
+      * rewrite mget_opt_app in Hl. destruct (mget_opt lb n') eqn:El; [left; exact Hl|].
+        destruct (n =? n') eqn:En; [|discriminate]. apply Z.eqb_eq in En. injection Hl as <-. subst n'.
+        right. exists ln. left. reflexivity.
+      * right. exists ln'. right. exact Hl.
+Qed.
+
+Lemma add_all_err ds : forall lb e, add_all lb ds = PErr e ->
+  exists n a ln, In (n, a, ln) ds /\ e = PDupLabel ln.
+Proof.
+  induction ds as [|[[n a] ln] t IH]; intros lb e H; cbn [add_all] in H; [discriminate|].
+  destruct (add_label lb n a ln) as [lb'|e'] eqn:Ea.
+  - destruct (IH _ _ H) as (n' & a' & ln' & Hin & He). exists n', a', ln'. split; [right; exact Hin | exact He].
+  - injection H as <-. apply add_label_err in Ea. exists n, a, ln. split; [left; reflexivity | exact Ea].
+Qed.
+
+Lemma add_all_app A : forall lb B,
+  add_all lb (A ++ B) = match add_all lb A with POk lb' => add_all lb' B | PErr e => PErr e end.
+Proof.
+  induction A as [|[[n a] ln] t IH]; intros lb B; cbn [app add_all]; [reflexivity|].
+  destruct (add_label lb n a ln); [apply IH | reflexivity].
+Qed.
+
+Lemma add_all_present ds : forall lb n v a ln, mget_opt lb n = Some v -> In (n, a, ln) ds ->
+  exists e, add_all lb ds = PErr e.
+Proof.
+  induction ds as [|[[n' a'] ln'] t IH]; intros lb n v a ln Hm Hin; [destruct Hin|].
+  cbn [add_all]. destruct (add_label lb n' a' ln') as [lb'|e] eqn:Ea; [|exists e; reflexivity].
+  destruct (add_label_ok _ _ _ _ _ Ea) as [-> Hnone].
+  destruct Hin as [Heq|Hin].
+  - injection Heq as -> -> ->. rewrite Hm in Hnone. discriminate Hnone.
+  - apply (IH _ n v a ln); [|exact Hin]. apply (proj1 (lbl_ext_add lb n' a' Hnone)). exact Hm.
+Qed.
+
+Lemma add_all_dup D1 n a1 l1 D2 a2 l2 lb : In (n, a2, l2) D2 ->
+  exists e, add_all lb (D1 ++ (n, a1, l1) :: D2) = PErr e.
+Proof.
+  intros Hin. rewrite add_all_app. destruct (add_all lb D1) as [lb1|e]; [|exists e; reflexivity].
+  cbn [add_all]. destruct (add_label lb1 n a1 l1) as [lb2|e] eqn:Ea; [|exists e; reflexivity].
+  destruct (add_label_ok _ _ _ _ _ Ea) as [-> Hnone].
+  apply (add_all_present D2 _ n a1 a2 l2); [|exact Hin].
+  apply (proj2 (lbl_ext_add lb1 n a1 Hnone)).
+Qed.
+
+(* under [grouped], "the previous entry is of another line" means "first entry of its line" *)
+Lemma grouped_first pre : forall last ln e post,
+  grouped (pre ++ (ln, e) :: post) -> prev_ln last pre <> Some ln -> ~ In ln (map fst pre).
+Proof.
+  induction pre as [|[l0 e0] t IH]; intros last ln e post Hg Hp Hin; [destruct Hin|].
+  cbn [app grouped] in Hg. destruct Hg as [Hnext Hg]. cbn [prev_ln] in Hp.
+  pose proof (IH (Some l0) ln e post Hg Hp) as Hnot.
+  cbn [map fst In] in Hin. destruct Hin as [->|Hin]; [|exact (Hnot Hin)].
+  assert (Hocc: In ln (map fst (t ++ (ln, e) :: post))).
+  { rewrite map_app, in_app_iff. right. left. reflexivity. }
+  specialize (Hnext Hocc). destruct t as [|[l1 e1] t'].
+  - cbn [prev_ln] in Hp. apply Hp. reflexivity.
+  - cbn [app] in Hnext. subst l1. apply Hnot. left. reflexivity.
+Qed.
+
+Lemma declares_prev inl pre ln e name : declares inl pre ln e name ->
+  e = ELabel name \/ exists b, e = EBody b /\ mget_opt inl ln = Some name /\ prev_ln None pre <> Some ln.
+Proof.
+  intros [H|(b & H1 & H2 & H3)]; [left; exact H|]. right. exists b. split; [exact H1|]. split; [exact H2|].
+  intros Hp. destruct (prev_ln_in _ _ _ Hp) as [Hc|Hc]; [discriminate Hc | exact (H3 Hc)].
+Qed.
+
+(* the declaration an entry contributes *)
+Lemma decls_here inl ln e post name addr last :
+  (e = ELabel name \/ exists b, e = EBody b /\ mget_opt inl ln = Some name /\ last <> Some ln) ->
+  exists rest, decls ((ln, e) :: post) inl addr last = (name, addr, ln) :: rest.
+Proof.
+  intros [->|(b & -> & Hm & Hl)]; cbn [decls].
+  - eexists. reflexivity.
+  - cbv zeta. rewrite Hm. rewrite (proj2 (is_first_true last ln) Hl). eexists. reflexivity.
+Qed.
+
+Lemma decls_cons_decl inl ln e post name addr last :
+  (e = ELabel name \/ exists b, e = EBody b /\ mget_opt inl ln = Some name /\ last <> Some ln) ->
+  decls ((ln, e) :: post) inl addr last =
+  (name, addr, ln) :: decls post inl (addr + 4 * Z.of_nat (ninsn [(ln, e)])) (Some ln).
+Proof.
+  intros [->|(b & -> & Hm & Hl)]; cbn [decls ninsn].
+  - replace (addr + 4 * Z.of_nat 0) with addr by lia. reflexivity.
+  - cbv zeta. rewrite Hm. rewrite (proj2 (is_first_true last ln) Hl).
+    replace (addr + 4 * Z.of_nat ((if body_is_instruction b then 1 else 0) + 0))
+      with (if body_is_instruction b then addr + 4 else addr)
+      by (destruct (body_is_instruction b); lia).
+    reflexivity.
+Qed.
+
+Lemma prev_ln_app last pre l e post : prev_ln last (pre ++ (l, e) :: post) = prev_ln (Some l) post.
+Proof.
+  revert last. induction pre as [|[l0 e0] t IH]; intros last; cbn [app prev_ln]; [reflexivity | apply IH].
+Qed.
+
+Lemma label_denotes_next_lem : forall text inl labels,
+  rv_labels text inl 0 [] None = POk labels ->
+  (forall pre ln e post name, text = pre ++ (ln, e) :: post -> declares inl pre ln e name ->
+     mget_opt labels name = Some (4 * Z.of_nat (ninsn pre))) /\
+  (grouped text -> forall name a, mget_opt labels name = Some a ->
+     exists pre ln e post, text = pre ++ (ln, e) :: post /\ declares inl pre ln e name /\
+                           a = 4 * Z.of_nat (ninsn pre)).
+Proof.
+  intros text inl labels H. rewrite rv_labels_decls in H.
+  destruct (add_all_ok _ _ _ H) as (_ & Hin & Hback). split.
+  - intros pre ln e post name -> Hd. apply declares_prev in Hd.
+    destruct (decls_here inl ln e post name (0 + 4 * Z.of_nat (ninsn pre)) (prev_ln None pre) Hd)
+      as (rest & Hr).
+    apply (Hin name _ ln). rewrite decls_app, Hr. apply in_or_app. right. left.
+    apply f_equal2; [apply f_equal2; [reflexivity | lia] | reflexivity].
+  - intros Hg name a Hm. destruct (Hback _ _ Hm) as [Hc|[ln Hd]]; [discriminate Hc|].
+    destruct (decls_in _ _ _ _ _ _ _ Hd) as (pre & e & post & -> & -> & Hcase).
+    exists pre, ln, e, post. split; [reflexivity|]. split; [|lia].
+    destruct Hcase as [->|(b & -> & Hi & Hp)]; [left; reflexivity|].
+    right. exists b. split; [reflexivity|]. split; [exact Hi|].
+    eapply grouped_first; eassumption.
+Qed.
+
+Lemma label_errors_lem : forall text inl e, rv_labels text inl 0 [] None = PErr e ->
+  exists ln, e = PDupLabel ln /\ In ln (map fst text).
+Proof.
+  intros text inl e H. rewrite rv_labels_decls in H.
+  destruct (add_all_err _ _ _ H) as (n & a & ln & Hin & ->). exists ln. split; [reflexivity|].
+  destruct (decls_in _ _ _ _ _ _ _ Hin) as (pre & e0 & post & -> & _).
+  rewrite map_app, in_app_iff. right. left. reflexivity.
+Qed.
+
+Lemma label_duplicates_lem : forall text inl pre ln1 e1 mid ln2 e2 post name,
+  text = pre ++ (ln1, e1) :: mid ++ (ln2, e2) :: post ->
+  declares inl pre ln1 e1 name -> declares inl (pre ++ (ln1, e1) :: mid) ln2 e2 name ->
+  exists ln, rv_labels text inl 0 [] None = PErr (PDupLabel ln) /\ In ln (map fst text).
+Proof.
+  intros text inl pre ln1 e1 mid ln2 e2 post name -> H1 H2.
+  assert (He: exists e, rv_labels (pre ++ (ln1, e1) :: mid ++ (ln2, e2) :: post) inl 0 [] None = PErr e).
+  { rewrite rv_labels_decls. apply declares_prev in H1. apply declares_prev in H2.
+    rewrite decls_app. rewrite (decls_cons_decl inl ln1 e1 _ name _ _ H1).
+    eapply add_all_dup. rewrite decls_app. apply in_or_app. right.
+    rewrite (prev_ln_app None pre ln1 e1 mid) in H2.
+    rewrite (decls_cons_decl inl ln2 e2 _ name _ _ H2). left. reflexivity. }
+  destruct He as [e He]. destruct (label_errors_lem _ _ _ He) as (ln & -> & Hin).
+  exists ln. split; [exact He | exact Hin].
+Qed.
+
+(* corollaries in the words of the property *)
+Lemma label_cases_lem : forall text inl labels, rv_labels text inl 0 [] None = POk labels ->
+  (* a stand-alone label *)
+  (forall pre ln name post, text = pre ++ (ln, ELabel name) :: post ->
+     mget_opt labels name = Some (4 * Z.of_nat (ninsn pre))) /\
+  (* an in-line label: the first entry of its source line, whatever the line expands to *)
+  (forall pre ln b post name, text = pre ++ (ln, EBody b) :: post -> ~ In ln (map fst pre) ->
+     mget_opt inl ln = Some name -> mget_opt labels name = Some (4 * Z.of_nat (ninsn pre))) /\
+  (* a label at the end of the program *)
+  (forall pre ln name, text = pre ++ [(ln, ELabel name)] ->
+     mget_opt labels name = Some (4 * Z.of_nat (ninsn text))).
+Proof.
+  intros text inl labels H. destruct (label_denotes_next_lem _ _ _ H) as [HA _].
+  split; [|split].
+  - intros pre ln name post Ht. apply (HA pre ln _ post name Ht). left; reflexivity.
+  - intros pre ln b post name Ht Hn Hm. apply (HA pre ln _ post name Ht). right.
+    exists b. split; [reflexivity|]. split; assumption.
+  - intros pre ln name Ht.
+    replace (ninsn text) with (ninsn pre)
+      by (rewrite Ht, ninsn_app; cbn [ninsn]; lia).
+    apply (HA pre ln _ [] name Ht). left; reflexivity.
+Qed.
